@@ -90,6 +90,15 @@ fn value_case(neg: bool, a: &[u64], grow: u64) -> Verdict {
         (Err(_), true) => {}
         (g, _) => return Err(format!("BigUint::try_from(&BigInt) = {:?} for a value with negative={}", g.is_ok(), r.neg)),
     }
+    match (BigUint::try_from(x.clone()), r.neg) {
+        (Ok(v), false) => ctx(eq_bu(&v, &r.mag), "BigUint::try_from(BigInt) by value")?,
+        (Err(e), true) => {
+            if e.into_original() != x {
+                return Err("BigUint::try_from(BigInt): the error does not carry the original value".into());
+            }
+        }
+        (g, _) => return Err(format!("BigUint::try_from(BigInt) by value = ok:{} for a value with negative={}", g.is_ok(), r.neg)),
+    }
     match u.to_bigint() {
         Some(v) => ctx(eq_bi(&v, &r.abs()), "BigUint::to_bigint")?,
         None => return Err("BigUint::to_bigint returned None".into()),
@@ -204,6 +213,9 @@ fn tables() -> Verdict {
     if BigInt::ZERO.sign() != Sign::NoSign || !BigInt::zero().is_zero() || !BigUint::one().is_one() || !BigInt::one().is_one() {
         return Err("constants: wrong sign/is_zero/is_one".into());
     }
+    // the trait associated constants
+    eq_bi(&<BigInt as num_traits::ConstZero>::ZERO, &z)?;
+    eq_bu(&<BigUint as num_traits::ConstZero>::ZERO, &z.mag)?;
     // From<bool>
     eq_bu(&BigUint::from(false), &z.mag)?;
     eq_bu(&BigUint::from(true), &o.mag)?;
